@@ -45,6 +45,11 @@ type simPlain struct {
 func (s *simPlain) Wrap(fk []byte) ([]*age.Stanza, error) {
 	*s.calls++
 	if s.fail {
+		if s.big%2 == 1 || *s.calls%2 == 0 {
+			// a failing recipient may still hand back what it produced so far: none of it may be used
+			st, _ := s.inner.Wrap(fk)
+			return st, errors.New("sim: injected wrap failure (with partial stanzas)")
+		}
 		return nil, errors.New("sim: injected wrap failure")
 	}
 	st, err := s.inner.Wrap(fk)
